@@ -21,6 +21,10 @@
 //! out on chain; node 0's event handler refuses the PaymentFailed event once (asking for a replay) and
 //! node 0 restarts from a manager written before the channel closed:
 //!   P9  (C03) the payer is still told PaymentFailed: a terminal event is delivered until it is handled
+//! Kind 8 is the mirror image of the silent downstream peer: node 2 claims, node 1 learns the preimage, and the
+//! *upstream* peer (node 0) is gone for good, so node 1 can only get the inbound HTLC by going on chain by itself:
+//!   D6  node 1's claim of the inbound HTLC output confirms no later than the HTLC's expiry (before the payer could
+//!       time it out), the miner confirming every valid transaction in the next block
 //! An eighth kind (7) also looks at the payer: node 0 has payment 1 committed towards node 1 and writes its manager;
 //! node 1's user claims while node 0 is sending payment 2, so that the fulfilment of 1 and the addition of 2 cross;
 //! node 0 handles PaymentSent, node 1's revocation for the commitment that added payment 2 arrives (the revoked
@@ -48,6 +52,7 @@ struct Seen {
 	c12_closed_at: Option<u32>,
 	c01_closed: Option<String>,
 	claimable_at_2: bool,
+	claimed_at_2: bool,
 }
 
 fn absorb(sim: &mut Sim, rep: &mut Report, seen: &mut Seen, c01: usize, c12: usize, hash: [u8; 32]) {
@@ -76,6 +81,7 @@ fn absorb(sim: &mut Sim, rep: &mut Report, seen: &mut Seen, c01: usize, c12: usi
 			Obs::Event { node: 0, ev: Event::PaymentSent { payment_hash, .. }, .. } if payment_hash.0 == hash => seen.sent = true,
 			Obs::Event { node: 0, ev: Event::PaymentFailed { payment_hash: Some(ph), .. }, .. } if ph.0 == hash => seen.failed = true,
 			Obs::Event { node: 2, ev: Event::PaymentClaimable { payment_hash, .. }, .. } if payment_hash.0 == hash => seen.claimable_at_2 = true,
+			Obs::Event { node: 2, ev: Event::PaymentClaimed { payment_hash, .. }, .. } if payment_hash.0 == hash => seen.claimed_at_2 = true,
 			Obs::Event { ev: Event::ChannelClosed { channel_id, reason, .. }, .. } => {
 				if sim.w.chans[c01].ids.contains(channel_id) {
 					seen.c01_closed.get_or_insert(format!("{:?}", reason));
@@ -134,6 +140,11 @@ pub fn phase(sim: &mut Sim, rng: &mut Rng, rep: &mut Report, only_kind: Option<u
 	let amt = 1_500_000 + rng.below(cap - 1_500_000);
 	// (the payer's restart – kind 6 – is C03's matter and runs as a stage of that check)
 	let kind = only_kind.unwrap_or_else(|| rng.below(6));
+	if kind == 8 {
+		let final_cltv = tc.min_final_cltv_expiry_delta as u32 + *rng.pick(&[0u32, 1, 5, 30]);
+		let claim_late = rng.below(3);
+		return upstream_silent(sim, rep, c01, c12, amt, final_cltv, tc.cltv_claim_buffer, claim_late);
+	}
 	if kind == 7 {
 		let amt1 = 1_000_000 + rng.below((hi / 4).max(1));
 		let amt2 = 1_000_000 + rng.below((hi / 4).max(1));
@@ -663,6 +674,129 @@ fn stale_sender_crossing(sim: &mut Sim, rep: &mut Report, c01: usize, amt1: u64,
 	if failed1 > 0 {
 		// (the payment monitor has raised P4 when it saw the event; this is the scenario's own statement of it)
 		sim.raised.push(("C03".into(), "P4-one-terminal-event".into(), "a payment the recipient claimed, reported PaymentSent before a restart from an older ChannelManager, was reported PaymentFailed after it although the HTLC was still in the counterparty's commitment and the monitor had recorded the claim".into(), format!("payment#{} sent_after_restart {} failed_after_restart {}", p1, sent1, failed1)));
+	}
+	Ok(())
+}
+
+/// Kind 8: the upstream peer is silent while node 1 knows the preimage of the inbound HTLC (D6).
+fn upstream_silent(sim: &mut Sim, rep: &mut Report, c01: usize, c12: usize, amt: u64, final_cltv: u32, claim_buffer: u32, claim_late: u64) -> Result<(), String> {
+	sim.w.step += 1;
+	sim.w.note(format!("DEADLINE scenario kind 8 (upstream peer silent, preimage known) amt {} final cltv delta {}", amt, final_cltv));
+	let pi = match sim.w.send_payment_ex(0, &[(vec![c01, c12], amt)], final_cltv, SendOpts { class: "deadline-forward", ..Default::default() }, None) {
+		Ok(p) => p,
+		Err(_) => {
+			sim.dispatch(rep);
+			return Ok(());
+		},
+	};
+	let hash = sim.w.payments[pi].hash.0;
+	let mut seen = Seen::default();
+	turn(sim, true);
+	absorb(sim, rep, &mut seen, c01, c12, hash);
+	let inbound = sim.w.chans[c01].model.as_ref().and_then(|m| m.pending_htlcs().iter().find(|h| h.3 == hash).map(|h| (h.4, h.2)));
+	let (cltv_in, amt_in) = match inbound {
+		Some(c) => c,
+		None => {
+			rep.count("c08_scenarios_htlc_not_committed");
+			return Ok(());
+		},
+	};
+	if seen.forwarded_at.is_none() || !seen.claimable_at_2 {
+		rep.count("c08_scenarios_not_forwarded");
+		return Ok(());
+	}
+	// the payer falls silent for good; the recipient claims now, or some blocks later (node 1 then learns the preimage
+	// with less time left), always well before the inbound HTLC's expiry
+	sim.w.note("DEADLINE the upstream peer goes silent for good".to_string());
+	sim.w.chans[c01].fault = Some("upstream peer dead".into());
+	sim.w.disconnect(0, 1);
+	// (the recipient fails the payment back itself from its own claim deadline on: it claims below that)
+	let deadline2 = sim.w.claimable.iter().find(|c| c.hash.0 == hash).and_then(|c| c.deadline).unwrap_or(0);
+	let room = deadline2.saturating_sub(sim.w.chain.height()).saturating_sub(2);
+	let wait = match claim_late {
+		0 => 0,
+		1 => 3,
+		_ => (cltv_in.saturating_sub(sim.w.chain.height()).saturating_sub(claim_buffer + 14)).min(20),
+	}
+	.min(room);
+	for _ in 0..wait {
+		sim.w.mine(1);
+		turn(sim, true);
+		absorb(sim, rep, &mut seen, c01, c12, hash);
+	}
+	let pos = match sim.w.claimable.iter().position(|c| c.hash.0 == hash) {
+		Some(p) => p,
+		None => {
+			rep.count("c08_d6_scenarios_no_longer_claimable");
+			return Ok(());
+		},
+	};
+	sim.w.step += 1;
+	sim.w.note(format!("DEADLINE node2 claims off-chain at height {}; node1 learns the preimage {} blocks before the inbound expiry {}", sim.w.chain.height(), cltv_in as i64 - sim.w.chain.height() as i64, cltv_in));
+	sim.w.claim(pos);
+	turn(sim, true);
+	absorb(sim, rep, &mut seen, c01, c12, hash);
+	let learned_at = sim.w.chain.height();
+	if !seen.claimed_at_2 {
+		rep.count("c08_d6_scenarios_claim_did_not_go_through");
+		return Ok(());
+	}
+	let end = cltv_in + 12;
+	while sim.w.chain.height() < end {
+		sim.w.mine(1);
+		for n in 0..3 {
+			sim.w.nodes[n].mon.rebroadcast_pending_claims();
+		}
+		turn(sim, true);
+		absorb(sim, rep, &mut seen, c01, c12, hash);
+		if !sim.raised.is_empty() {
+			return Ok(());
+		}
+	}
+	rep.count("c08_d6_upstream_silent_scenarios_judged");
+	let detail_base = format!("inbound HTLC of {} msat expiring at {}, preimage learnt at height {}", amt_in, cltv_in, learned_at);
+	// what became of the inbound HTLC's output?
+	let funding = match sim.w.chans[c01].funding.as_ref() {
+		Some(f) => bitcoin::OutPoint { txid: f.compute_txid(), vout: 0 },
+		None => return Ok(()),
+	};
+	let (commit_txid, commit_height) = match sim.w.chain.spent.get(&funding) {
+		Some(x) => *x,
+		None => {
+			sim.raised.push(("C08".into(), "D6-onchain-in-time-for-known-preimage".into(), "a node that knew the preimage of an inbound HTLC never went on chain although its upstream peer stayed silent past the HTLC's expiry".into(), detail_base));
+			return Ok(());
+		},
+	};
+	rep.max("c08_d6_max_blocks_between_going_on_chain_and_the_inbound_expiry", cltv_in.saturating_sub(commit_height) as u64);
+	rep.count(if cltv_in.saturating_sub(commit_height) <= claim_buffer { "c08_d6_went_on_chain_within_the_claim_buffer" } else { "c08_d6_went_on_chain_earlier_than_the_claim_buffer" });
+	let mut claimed: Option<(bitcoin::Txid, u32)> = None;
+	let mut vout = 0u32;
+	let mut found_output = false;
+	while let Some(o) = sim.w.chain.all_outputs.get(&bitcoin::OutPoint { txid: commit_txid, vout }) {
+		if o.value.to_sat() == amt_in / 1000 && o.script_pubkey.is_p2wsh() {
+			found_output = true;
+			if let Some((spender, h)) = sim.w.chain.spent.get(&bitcoin::OutPoint { txid: commit_txid, vout }) {
+				if seen.node1_txids.contains(spender) {
+					claimed = Some((*spender, *h));
+				}
+			}
+		}
+		vout += 1;
+	}
+	if !found_output {
+		rep.count("c08_d6_inbound_htlc_without_an_output");
+		return Ok(());
+	}
+	match claimed {
+		Some((_, h)) if h <= cltv_in => {
+			rep.count("c08_d6_inbound_htlcs_claimed_on_chain_in_time");
+			rep.max("c08_d6_min_margin_marker", 1);
+			if h + 3 >= cltv_in {
+				rep.count("c08_d6_claims_confirmed_within_three_blocks_of_the_expiry");
+			}
+		},
+		Some((t, h)) => sim.raised.push(("C08".into(), "D6-onchain-in-time-for-known-preimage".into(), "a node's on-chain claim of an inbound HTLC whose preimage it knew confirmed only after the HTLC's expiry".into(), format!("{}; commitment confirmed at {}, claim {} confirmed at {}", detail_base, commit_height, t, h))),
+		None => sim.raised.push(("C08".into(), "D6-onchain-in-time-for-known-preimage".into(), "a node that knew the preimage of an inbound HTLC did not claim its output on chain".into(), format!("{}; commitment {} confirmed at {}", detail_base, commit_txid, commit_height))),
 	}
 	Ok(())
 }
